@@ -27,7 +27,7 @@ const rule = "cases = (call sequence over {WriteHeader 100/150/101/200/404/500, 
 	"underlying writer capability set in {plain, +ReaderFrom, +Flusher, +both}, underlying writer failing after k in {never,0,2,4} body bytes); all sequences up to a bounded length are enumerated, random longer ones; " +
 	"distinct by (sequence, capability set, k); non-trivial when the sequence contains a body operation or more than one header call"
 
-var opNames = []string{"WH100", "WH150", "WH101", "WH200", "WH404", "WH500", "W0", "W3", "WS3", "RF0", "RF1", "RF5", "RFfail2", "RFfail0", "Flush"}
+var opNames = []string{"WH100", "WH150", "WH101", "WH200", "WH404", "WH500", "W0", "W3", "WS3", "RF0", "RF1", "RF5", "RFfail2", "RFfail0", "Flush", "RF5eof", "RFfail2now"}
 
 type event struct {
 	kind string // header, body, flush
@@ -124,9 +124,10 @@ func wrap(u *under, capSet int) http.ResponseWriter {
 }
 
 type failingReader struct {
-	data string
-	pos  int
-	fail bool
+	data  string
+	pos   int
+	fail  bool
+	eager bool // report EOF / the failure in the same Read call that returns the last bytes (allowed by io.Reader)
 }
 
 var errSrc = errors.New("source: broken")
@@ -140,6 +141,12 @@ func (r *failingReader) Read(p []byte) (int, error) {
 	}
 	n := copy(p, r.data[r.pos:])
 	r.pos += n
+	if r.eager && r.pos >= len(r.data) {
+		if r.fail {
+			return n, errSrc
+		}
+		return n, io.EOF
+	}
 	return n, nil
 }
 
@@ -192,7 +199,7 @@ func exec(f *fox.Router, seq []int, capSet, limit int) result {
 				payload += k
 				return s
 			}
-			before := u.got
+			before, supplied := u.got, payload
 			switch opNames[op] {
 			case "WH100":
 				w.WriteHeader(100)
@@ -228,6 +235,10 @@ func exec(f *fox.Router, seq []int, capSet, limit int) result {
 				n, err = w.ReadFrom(&failingReader{data: next(2), fail: true})
 			case "RFfail0":
 				n, err = w.ReadFrom(&failingReader{fail: true})
+			case "RF5eof":
+				n, err = w.ReadFrom(&failingReader{data: next(5), eager: true})
+			case "RFfail2now":
+				n, err = w.ReadFrom(&failingReader{data: next(2), fail: true, eager: true})
 			case "Flush":
 				err = w.FlushError()
 				if capSet < 2 {
@@ -241,6 +252,17 @@ func exec(f *fox.Router, seq []int, capSet, limit int) result {
 			if strings.HasPrefix(opNames[op], "W") && !strings.HasPrefix(opNames[op], "WH") || strings.HasPrefix(opNames[op], "RF") {
 				if int(n) != accepted {
 					bad("step %d (%s): returned n=%d but the underlying writer accepted %d bytes", step, opNames[op], n, accepted)
+				}
+			}
+			// completeness: an underlying writer that never fails receives every byte the handler supplied, and the only
+			// error reported is the source's own
+			if u.limit < 0 && opNames[op] != "Flush" && !strings.HasPrefix(opNames[op], "WH") {
+				srcFails := strings.HasPrefix(opNames[op], "RFfail")
+				if int(n) != payload-supplied {
+					bad("step %d (%s): %d bytes supplied, n=%d returned (underlying writer never fails)", step, opNames[op], payload-supplied, n)
+				}
+				if srcFails != (err != nil) || (srcFails && !errors.Is(err, errSrc)) {
+					bad("step %d (%s): returned error %v (source fails: %t, underlying writer never fails)", step, opNames[op], err, srcFails)
 				}
 			}
 			// shadow model from the event log
@@ -565,6 +587,69 @@ func capabilities(run *kit.Run) {
 		run.Guard("capability-panic|"+c.name, nil, func() { f.ServeHTTP(c.mk(base), req) })
 	}
 	run.Count("capability_matrix_rows", int64(len(cases)))
+	hijackThenReuse(run)
+}
+
+// hijackOK is an underlying writer whose Hijack succeeds.
+type hijackOK struct {
+	*under
+	hijacked int
+}
+
+func (h *hijackOK) Hijack() (net.Conn, *bufio.ReadWriter, error) {
+	h.hijacked++
+	a, b := net.Pipe()
+	_ = b.Close()
+	return a, bufio.NewReadWriter(bufio.NewReader(a), bufio.NewWriter(a)), nil
+}
+
+// hijackThenReuse: the state of one request's writer never leaks into the next request served with the recycled
+// context: after a handler hijacked its connection, the following requests (other connections) must have their status
+// and body forwarded and accounted as usual.
+func hijackThenReuse(run *kit.Run) {
+	f := newRouter()
+	f.MustHandle("GET", "/hijack", func(c fox.Context) {
+		if conn, _, err := c.Writer().Hijack(); err == nil {
+			_ = conn.Close()
+		}
+	})
+	f.MustHandle("GET", "/plain", func(c fox.Context) {
+		c.Writer().WriteHeader(201)
+		_, _ = c.Writer().Write([]byte("hello"))
+		if c.Writer().Status() != 201 || c.Writer().Size() != 5 || !c.Writer().Written() {
+			run.Violate("hijack-reuse|accounting", fmt.Sprintf("request after a hijacked one: Status()=%d Size()=%d Written()=%t after WriteHeader(201)+Write(5 bytes)", c.Writer().Status(), c.Writer().Size(), c.Writer().Written()), nil)
+		}
+	})
+	mkreq := func(p string) *http.Request {
+		return &http.Request{Method: "GET", URL: &url.URL{Path: p}, Header: http.Header{}, Proto: "HTTP/1.1", ProtoMajor: 1, ProtoMinor: 1}
+	}
+	// strictly sequential on one goroutine: the second request gets the context released by the first
+	for round := 0; round < 50; round++ {
+		h := &hijackOK{under: &under{h: http.Header{}, limit: -1}}
+		run.Guard("hijack-reuse-panic", nil, func() { f.ServeHTTP(h, mkreq("/hijack")) })
+		if h.hijacked != 1 {
+			run.Violate("hijack-reuse|not-delegated", fmt.Sprintf("Hijack on an underlying writer that supports it was delegated %d times", h.hijacked), nil)
+		}
+		for k := 0; k < 3; k++ {
+			u := &under{h: http.Header{}, limit: -1}
+			run.Guard("hijack-reuse-panic", nil, func() { f.ServeHTTP(u, mkreq("/plain")) })
+			status, body := 0, ""
+			for _, e := range u.log {
+				if e.kind == "header" && status == 0 {
+					status = e.code
+				}
+				if e.kind == "body" {
+					body += e.data
+				}
+			}
+			run.Eval(1)
+			if status != 201 || body != "hello" {
+				run.Violate("hijack-reuse|swallowed", fmt.Sprintf("request #%d after a request whose handler hijacked its connection: the underlying writer received status=%d body=%q, the handler wrote 201 and %q", k+1, status, body, "hello"), nil)
+			}
+		}
+	}
+	run.Case("hijack-then-reuse", true)
+	run.Count("requests_checked_after_a_hijacked_request", 150)
 }
 
 // ---- Context helpers ----
